@@ -708,7 +708,8 @@ func (ro *RedisOutput) rdbReplayBisyncGlobal(ctx context.Context, runID string, 
 				return err
 			}
 		case <-ctx.Done():
-			return nil
+			// entries may still be queued: the replay is incomplete, not done
+			return ctx.Err()
 		}
 	}
 }
@@ -776,7 +777,8 @@ func (ro *RedisOutput) rdbReplayBisync(ctx context.Context, runID string, fullSy
 				return err
 			}
 		case <-ctx.Done():
-			return nil
+			// entries may still be queued: the replay is incomplete, not done
+			return ctx.Err()
 		}
 	}
 }
